@@ -65,10 +65,11 @@ class TypedNode(Node):
         node_id: Optional[int] = None,
         meta: Optional[dict] = None,
     ):
+        # Validate `kind` first: the base constructor registers the new node
+        assert isinstance(kind, str) and kind != ANY_KIND, f"Unsupported `kind`: {kind}"
         super().__init__(
             data, parent=parent, data_id=data_id, node_id=node_id, meta=meta
         )
-        assert isinstance(kind, str) and kind != ANY_KIND, f"Unsupported `kind`: {kind}"
         self._kind = kind
         # del self._children
         # self._child_map: Dict[Node] = None
